@@ -583,6 +583,8 @@ def _t2k_condition(ctx, ci, ev):
 
 
 def run(ctx):
+    from .c04 import rule_groups
+    rule_groups(ctx, 'C02.slots')
     rule_fmt(ctx)
     rule_grammars(ctx)
     rule_count(ctx)
@@ -658,6 +660,9 @@ class AmpCompA"""),
          old="return not isnan(self._param_value)", new="return True"),
     dict(rule='C02.topo', name='replacement unit forgets width-first antecedents', file='sc3/synth/synthdef.py',
          old="        b._width_first_antecedents = a._width_first_antecedents\n", new="        b._width_first_antecedents = []\n"),
+    dict(rule='C02.slots', name='name table slot advances by a stale size', file='sc3/synth/synthdef.py',
+         old="                cn.index = index\n                index += len(utl.as_list(cn.default_value))\n                arguments[cn.arg_num] = ctrl_ugens[i]\n                self._set_control_names(ctrl_ugens[i], cn)\n\n        self._control_names",
+         new="                cn.index = index\n                index += valsize\n                arguments[cn.arg_num] = ctrl_ugens[i]\n                self._set_control_names(ctrl_ugens[i], cn)\n\n        self._control_names"),
 ]
 
 REPAIRS = []
